@@ -271,15 +271,15 @@ Definition k_text_ends_with : str := k_tmpl ++ [116;101;120;116;46;101;110;100;1
 Local Close Scope N_scope.
 Definition concat_pattern_templates : list str := [k_text_starts_with; k_text_contains; k_text_ends_with].
 
-(* Two classes are left: F5 (a CHILD template that declares strength 100 over a top-level `*` or `/`) and C02-N7 (the
-   PARENT is an f-string on a dialect that spells concatenation `||`).
+(* One class is left: C02-N7 (the PARENT is an f-string on a dialect that spells concatenation `||`).
    F2 (between), F4 (comparison chain), F30 (multiply), C02-N2 (equality under comparison), C02-N3 (regexp),
    C02-N6 and C02-N5 (LIKE templates) were repaired in /repo: their triples are not excused, so a regression breaks
    sql_compat.  (The dialect argument is kept: a class may be dialect-specific, as C02-N5 was.) *)
 (* C02-N7: process_concat never parenthesises a part; on a dialect without a CONCAT function the parts sit next to `||` *)
 Definition known_concat_part (dialect : str) (t : triple) : bool :=
   negb (dialect_has_concat dialect) && leqb (fst (fst t)) k_concat.
-Definition known_triple (dialect : str) (t : triple) : bool := mem (snd t) dishonest_templates || known_concat_part dialect t.
+(* F5 (div_i / math.log declared strength 100 over a top-level `*` / `/`) was repaired in /repo af135b8: they declare 11 *)
+Definition known_triple (dialect : str) (t : triple) : bool := known_concat_part dialect t.
 
 Definition sql_compat (dialect : str) : bool :=
   forallb (fun tv => known_triple dialect (fst tv) || verdict_ok (snd tv)) (all_triples dialect).
